@@ -47,7 +47,7 @@ for mp in sorted(glob.glob(R + '/seeded/*/meta.json')):
     c = m.get('check_quick', {})
     print('| seeded/%s | %s | %s | %s%s |' % (os.path.basename(os.path.dirname(mp)), m.get('site', '?').replace('|', '\\|'), m.get('needs', '(see notes in the directory)').replace('|', '\\|'),
           ('obsolete' if m.get('obsolete') else 'killed by the %s check' % m['caught_by']['property'] if m.get('caught_by') else c.get('result', '?')),
-          ' (see below)' if m.get('caught_by') or m.get('obsolete') else ' (after strengthening, see below)' if m.get('history') else ''))
+          ' (see below)' if m.get('caught_by') or m.get('obsolete') or m.get('out_of_scope') else ' (after strengthening, see below)' if m.get('history') else ''))
 surv = [(os.path.basename(os.path.dirname(mp)), json.load(open(mp))) for mp in sorted(glob.glob(R + '/seeded/*/meta.json'))]
 surv = [(n, m) for n, m in surv if m.get('history')]
 print()
@@ -64,12 +64,14 @@ if pre:
 tot = len(glob.glob(R + '/seeded/*/meta.json'))
 print()
 obs = [n for n, m in surv if m.get('obsolete')]
+oos = [n for n, m in surv if m.get('out_of_scope')]
 other = [n for n, m in surv if m.get('caught_by')]
 allm = [(os.path.basename(os.path.dirname(mp)), json.load(open(mp))) for mp in sorted(glob.glob(R + '/seeded/*/meta.json'))]
-open_ = [n for n, m in allm if m.get('check_quick', {}).get('result') != 'killed' and not m.get('caught_by') and not m.get('obsolete')]
+open_ = [n for n, m in allm if m.get('check_quick', {}).get('result') != 'killed' and not m.get('caught_by') and not m.get('obsolete') and not m.get('out_of_scope')]
 print('%d seeded changes confirmed; %d survived the first run of their own property\'s check; %s by the current quick checks (re-run after every strengthening)%s%s.' % (
     tot, len(surv), 'every one is caught' if not open_ else 'all but %d (%s) are caught' % (len(open_), ', '.join(open_)), ', %d of them by the check of the sibling property whose subject they touch (%s)' % (len(other), ', '.join(other)) if other else '',
-    '; %d no longer applies because a later fix removed the code it mutated (%s)' % (len(obs), ', '.join(obs)) if obs else ''))
+    ('; %d no longer applies because a later fix removed the code it mutated (%s)' % (len(obs), ', '.join(obs)) if obs else '') +
+    ('; %d judged outside its property and not claimed (%s)' % (len(oos), ', '.join(oos)) if oos else '')))
 
 text = _out.getvalue()
 if '--update' in sys.argv:
